@@ -378,8 +378,9 @@ class L(Pat):
                     and canon(strip(inits[0])) == canon(e):
                 return True
             return False
-        if ctx.names is None or self.name in ctx.names:
-            return e.get('name') == self.name
+        if ctx.names is None or self.name in ctx.names or any(n_.rstrip("'") == self.name for n_ in ctx.names if isinstance(n_, str)):
+            # (a callee local renamed by capture-avoiding inlining, `time'`, is still "time")
+            return (e.get('name') or '').rstrip("'") == self.name
         bound = ctx.env.get(self.name)
         if bound is None:
             ctx.env[self.name] = e.get('name')
